@@ -355,11 +355,13 @@ func runDet(o *Out, r *Rng, n int, dir string, hist Hist, caseJSON map[string][]
 				ops = append(ops, fmt.Sprintf("(DScan %d %s)", num, actCoq(act)))
 				opNames = append(opNames, "Scan")
 			default:
-				nw, err := saveReload(cur, dir)
-				if err != nil {
-					return err
+				// a wallet that can not be saved and loaded again is a failure of the case,
+				// not of the harness
+				if nw, err := saveReload(cur, dir); err != nil || nw == nil {
+					failsOK = false
+				} else {
+					cur = nw
 				}
-				cur = nw
 				ops = append(ops, "DSaveReload")
 				opNames = append(opNames, "Reload")
 			}
@@ -708,11 +710,11 @@ func runIdx(o *Out, r *Rng, n int, dir string, hist Hist, caseJSON map[string][]
 				ops = append(ops, fmt.Sprintf("(IScan %d %s)", num, actCoq(act)))
 				opNames = append(opNames, "Scan")
 			default:
-				nw, err := saveReload(cur, dir)
-				if err != nil {
-					return err
+				if nw, err := saveReload(cur, dir); err != nil || nw == nil {
+					ok = false
+				} else {
+					cur = nw
 				}
-				cur = nw
 				ops = append(ops, "ISaveReload")
 				opNames = append(opNames, "Reload")
 			}
